@@ -48,7 +48,7 @@ enga_prop!(C01, "C01", profiles = CHECKED,
     quick = 320_000, thorough = 10_000_000,
     assumptions = COMMON_ASSUME.to_vec());
 
-enga_prop!(C03, "C03", profiles = CHECKED,
+enga_prop!(C03A, "C03", profiles = CHECKED,
     profile = { let mut p = Profile::base(); p.w_typed = 45; p.w_aligned = 35; p.w_bytes = 30; p.zero_pct = 12; p.w_fill = 10; p },
     mode = Mode::default(),
     nontrivial = |c| c.contains("typed-recycled") || c.contains("typed-at-odd-cursor") || c.contains("zero-size-on-full"),
@@ -105,9 +105,9 @@ enga_prop!(C20, "C20", profiles = CHECKED,
     assumptions = COMMON_ASSUME.to_vec());
 
 enga_prop!(C05, "C05", profiles = CHECKED,
-    profile = { let mut p = Profile::base(); p.max_ops = 36; p.backends = FILE_ONLY; p.caps = SMALL_CAPS; p.w_reopen = 10; p.w_flush = 3; p.w_fill = 8; p.w_drop = 35; p.w_incdisc = 3; p.w_minseg = 3; p.w_detach = 8; p.w_dealloc = 6; p.reopen_modes = &[(5, 0), (2, 1), (2, 2), (1, 3)]; p },
+    profile = { let mut p = Profile::base(); p.max_ops = 36; p.backends = FILE_ONLY; p.caps = SMALL_CAPS; p.w_reopen = 10; p.w_flush = 3; p.w_fill = 8; p.w_drop = 35; p.w_incdisc = 3; p.w_minseg = 3; p.w_detach = 8; p.w_dealloc = 6; p.w_clear = 1; p.w_rewind = 2; p.w_discard = 2; p.reopen_modes = &[(5, 0), (2, 1), (2, 2), (1, 3)]; p },
     mode = Mode::default(),
     nontrivial = |c| c.contains("reopen-rich"),
-    rule = "Engine A histories on file-backed arenas cut by drop + reopen (map_mut / map_copy / map / map_copy_read_only; capacity same, larger, absent; create or create_new; mapping offset 0..2 pages). After each reopen allocated/discarded/data_offset/min segment/magic/version/free list equal the values at close (for a closed map_copy session: the values saved when it was opened, and the file bytes are unchanged), reserved prefix and every handed-out range byte-identical; the history continues with the shadow map carried over, so C01 disjointness and the C10 policy apply to post-reopen allocations. Non-trivial = a reopen with >= 1 free segment, >= 1 handed-out range and discarded() > 0",
+    rule = "Engine A histories on file-backed arenas cut by drop + reopen (map_mut / map_copy / map / map_copy_read_only; capacity same, larger, absent; create or create_new; mapping offset 0..2 pages). After each reopen allocated/discarded/data_offset/min segment/magic/version/free list equal the values at close (for a closed map_copy session: the values saved when it was opened, and the file bytes are unchanged), reserved prefix and every handed-out range byte-identical; the history continues with the shadow map carried over, so C01 disjointness and the C10 policy apply to post-reopen allocations; the histories also contain clear, rewind and discard_freelist (whatever an arena went through before it was closed, it must reopen). Non-trivial = a reopen with >= 1 free segment, >= 1 handed-out range and discarded() > 0",
     quick = 120_000, thorough = 2_000_000,
     assumptions = { let mut v = COMMON_ASSUME.to_vec(); v.push("files live on tmpfs (/dev/shm); durability of sync_all is not observable in-process"); v });
